@@ -282,6 +282,9 @@ func (t *Tree) recover(errp *error) {
 			panic(e)
 		}
 		if t != nil {
+			if t.lex != nil {
+				t.lex.drain()
+			}
 			t.stopParse()
 		}
 		*errp = e.(error)
